@@ -10,13 +10,17 @@ One op describes a whole history:
     headers  h:p:w,h:p:w,…   the forest: hash, previous_block_hash, difficulty (hash unique)
     steps    step,step,…     A<h>.<h>…[!r.r.…]   add_headers([those headers in that order]) (duplicates allowed, may be empty)
                              L<index>[!r.r.…]     lock_to_index(index)
+                             P<h>.<h>…            preload_locked_blocks([those headers]) (the theorems cover it as the first call on a
+                                                  fresh object, with a chain from the anchor; the generator emits it only there)
              after `!` comes the scripted pop order of the set that `meld_new_hashes` drains during that call: `pop()`
              returns the first listed hash that is still in the set, else the oldest member
 
 Answer: `ok <step>|<step>|…`, each step
-    ops=<+h@i.-h@i…>;cb=<same, as seen by the change callback>;lk=~ (reserved);
+    ops=<+h@i.-h@i…>;cb=<same, as seen by the change callback>;lk=<start>:<h:p:w.…> what did_lock_to_index_f was called with (~: not called);
     len=N;locked=K;chain=h.h.h (hash_for_index 0..N-1);last=h;idx=h:i.h:-.… (index_for_hash of every header);
-    tup=h:p:w.… (tuple_for_index 0..N-1)
+    tup=h:p:w.… (tuple_for_index 0..N-1);neg=h.h… (hash_for_index -1..-N);oob=x,y (hash_for_index(-N-1), hash_for_index(N): a hash or E for
+    IndexError; correspondence only);nt=h:p:w (tuple_for_index(-1), E when it raises);ul=unlocked_length();known=bits (is_hash_known of every header);
+    q=<+h@i…> the queue of a consumer that feeds every callback's ops through BlockChain._update_q
 or `err <ExceptionClass>` for the step that raised (the history stops there), or `outside` for a `lock_to_index` beyond the
 reported chain (outside the property: the call is not made and the history stops).
 """
@@ -25,31 +29,48 @@ from __future__ import annotations
 import itertools
 
 import pycoin.blockchain.ChainFinder as _cfmod
-from pycoin.blockchain.BlockChain import BlockChain
+from pycoin.blockchain.BlockChain import BlockChain, _update_q
 
 MANIFEST = {
     "text": "Lean theorems over an executable model of ChainFinder (load_nodes/meld_new_hashes with the set.pop() order a parameter, "
-            "maximum_path, find_ancestral_path) and BlockChain (add_headers, lock_to_index, lookups), by induction over arbitrary histories and, "
-            "inside each call, over the melding loop with an invariant relative to the pending set: for every forest, batching, pop order and "
-            "interleaving of lock_to_index the finder ends sound and complete (C15_chainfinder_inv); replaying all returned ops from the empty list "
-            "reproduces the reported chain; length/hash_for_index/tuple_for_index/index_for_hash/last_block_hash agree with one duplicate-free list; "
-            "the reported unlocked chain is a heaviest chain of registered headers above the current anchor, also after lock_to_index; well-formed "
-            "histories (acyclic parent relation, anchor outside the forest, locks within the chain) never raise and every walk ends within its fuel "
-            "(C15_never_raises). The pre-repair meld_new_hashes is refuted on the three-header witness. "
+            "maximum_path, find_ancestral_path) and BlockChain (add_headers, lock_to_index, preload_locked_blocks, every lookup incl. negative indices, "
+            "locked_length/unlocked_length, is_hash_known, the did_lock_to_index_f arguments, the queue helper _update_q), by induction over arbitrary "
+            "histories and, inside each call, over the melding loop with an invariant relative to the pending set. For every forest, batching, pop order "
+            "and interleaving of lock_to_index: the finder ends sound and complete (C15_chainfinder_inv); parent_lookup and weight_lookup record exactly "
+            "the delivered headers that are not locked, _locked_chain is the concatenation of the items handed to did_lock_to_index_f and a chain of "
+            "delivered headers from the first anchor (C15_dicts_record_delivered, _exact); hence, with Delivered(history) = all headers of all batches and "
+            "no hypothesis on what the dicts hold, the reported chain is a chain of Spec.Chain from the first anchor and its unlocked part a "
+            "maximum-total-weight chain from the current anchor among ALL delivered headers (C15_heaviest_over_spec; C15_heaviest_extending_locked: heaviest "
+            "among the chains from the first anchor that extend the locked prefix; C15_heaviest_no_lock: heaviest outright when nothing was locked); "
+            "replaying all returned ops from the empty list reproduces the reported chain (C15_replay_ops) and so does the queue a consumer keeps through "
+            "_update_q (C15_update_q); length, tuple_for_index (hash, parent, weight; locked and unlocked part), hash_for_index (also -1..-length), "
+            "index_for_hash (None off the chain), is_hash_known, last_block_hash, locked_length, unlocked_length agree with that one chain "
+            "(C15_index_maps_agree, C15_lookups_over_spec); lock_to_index emits no ops and calls did_lock_to_index_f with the newly locked items and the old "
+            "locked length exactly when something new is locked (C15_lock_callback); the same from an object with a preloaded locked prefix "
+            "(C15_preloaded_history); well-formed histories never raise (C15_never_raises). The pre-repair meld_new_hashes is refuted on the three-header witness. "
             "Model tied to the code by differential correspondence on whole histories (all forests on <=3 headers x weights x batchings x pop orders, "
-            "samples of 4..6, random histories with forks, orphans, duplicates, zero weights and locks, two objects fed interleaved) and a reference "
-            "oracle on the implementation; the finder invariant is also evaluated on the real objects after every step (op c15inv).",
+            "samples of 4..6, random histories with forks, orphans, duplicates, zero weights, locks and preloaded prefixes, two objects fed interleaved, "
+            "_update_q on arbitrary queues) and a reference oracle on the implementation; the finder invariant is also evaluated on the real objects after "
+            "every step (op c15inv).",
     "note": "set.pop()/iteration order is pinned by a set subclass bound to the name `set` in the ChainFinder module namespace (no source change). "
-            "Three defects repaired (fix: commits): lost orphan subtrees in meld_new_hashes, chain switch at lock_to_index on ties, "
-            "locked duplicate wiping the unlocked chain. Still partial: the statement against Spec.Chain assumes that the dicts record the "
-            "delivered headers (C15_heaviest_over_spec_partial).",
+            "Three defects repaired earlier (fix: commits): lost orphan subtrees in meld_new_hashes, chain switch at lock_to_index on ties, "
+            "locked duplicate wiping the unlocked chain. C15_heaviest_over_spec_partial is kept; its hypothesis is what C15_dicts_record_delivered proves. "
+            "What the code keeps after lock_to_index: every registered header except the newly locked ones, i.e. also side branches hanging below the lock "
+            "point; they can no longer reach the current anchor (their top is a locked hash or the first anchor, which have no entry), the maximality "
+            "statement is over all delivered headers anyway. weight_lookup/unlocked_block_storage are never pruned. Hypotheses that remain: no delivered "
+            "header carries the first anchor's hash; a hash names one header (Spec.Chain.Consistent) for the statements against the specification. "
+            "Observed, outside the property: tuple_for_index(i) for i < -length() hands the still negative index to _locked_chain[i], which wraps around "
+            "instead of raising (model and code agree; not judged). Two objects created without a storage argument share the default dict "
+            "unlocked_block_storage; with real hashes (one header per hash) the ops are unaffected.",
     "technique": "Lean 4 proof (induction over histories and over the melding loop of an executable model) + differential correspondence model vs implementation + reference oracle",
 }
-RULE = ("one op = one history (forest, delivery order and batching, lock_to_index calls, scripted pop order); distinct = distinct op line; "
-        "trivial = fewer than two add_headers steps or a forest that is a single chain delivered in order")
+RULE = ("one op = one history (forest, delivery order and batching, lock_to_index calls, optional preloaded prefix, scripted pop order) or one "
+        "_update_q call; distinct = distinct op line; trivial = fewer than two add_headers steps or a forest that is a single chain delivered in order")
 ASSUMPTIONS = ["hashes are distinct numbers standing in for header hashes; the headers form a forest (no cycles) and no header has the anchor as its own hash",
+               "a hash names one header: a re-delivered header equals the stored one (the harness compares header objects by hash)",
                "CPython set iteration/pop order is unspecified: the harness pins it (insertion order or its reverse; scripted pop) and the theorems hold for every order",
-               "after lock_to_index the 'anchor' is the last locked block: maximality is among chains extending the locked prefix"]
+               "after lock_to_index the 'anchor' is the last locked block: maximality is among chains extending the locked prefix",
+               "preload_locked_blocks is covered as the first call on a fresh object with a chain of distinct headers from the anchor"]
 TRUSTED = ["harness/props/c15.py ScriptedSet: a `set` subclass with a scripted pop order, bound to the name `set` in pycoin.blockchain.ChainFinder's module namespace"]
 
 
@@ -118,6 +139,20 @@ class Hdr(object):
     def hash(self):
         return self.h
 
+    # a hash names one header: a re-delivered header is a new object that equals the old one (`_update_q` compares the
+    # blocks inside ops; the model's ops carry the hash of the stored block).  By hash only: in the two-object histories
+    # the objects share the default storage dict and the same number stands for different headers in the two forests
+    def __eq__(self, o):
+        return isinstance(o, Hdr) and self.h == o.h
+
+    def __hash__(self):
+        return hash(self.h)
+
+
+class _Q(list):
+    """the queue `_update_q` works on: `pop()` takes the newest entry, `put_nowait` appends"""
+    put_nowait = list.append
+
 
 # ------------------------------------------------------------------ op syntax
 
@@ -134,8 +169,8 @@ def parse_op(op: str):
         for s in a[4].split(","):
             body, _, rk = s[1:].partition("!")
             rank = [int(x) for x in rk.split(".")] if rk else []
-            if s[0] == "A":
-                steps.append(("A", [int(x) for x in body.split(".")] if body else [], rank))
+            if s[0] in "AP":
+                steps.append((s[0], [int(x) for x in body.split(".")] if body else [], rank))
             else:
                 steps.append(("L", int(body), rank))
     return anchor, rev, hdrs, steps
@@ -145,7 +180,7 @@ def show_op(anchor, rev, hdrs, steps) -> str:
     hs = ",".join("%d:%d:%d" % (h, p, w) for h, (p, w) in hdrs.items()) or "~"
     ss = []
     for k, body, rank in steps:
-        s = k + (".".join(map(str, body)) if k == "A" else str(body))
+        s = k + (".".join(map(str, body)) if k in "AP" else str(body))
         if rank:
             s += "!" + ".".join(map(str, rank))
         ss.append(s)
@@ -181,7 +216,8 @@ def _inv_bits(bc) -> str:
     covers = all(any(h in t and b in dbt.get(t[-1], ()) for b, t in trees.items()) for h in pl)
     c = bc._longest_chain_cache
     cache = True if c is None else _up_path(pl, list(c) + [bc.parent_hash])
-    return "%d%d%d" % (sound, covers, cache)
+    missing = {k for k in cf.missing_parents() if dbt[k]} == {p for p in pl.values() if p not in pl}
+    return "%d%d%d%d" % (sound, covers, cache, missing)
 
 
 def impl_inv(op: str) -> str:
@@ -197,6 +233,8 @@ def impl_inv(op: str) -> str:
                 break
             if k == "A":
                 bc.add_headers([Hdr(h, *hdrs[h]) for h in body])
+            elif k == "P":
+                bc.preload_locked_blocks([Hdr(h, *hdrs[h]) for h in body])
             else:
                 bc.lock_to_index(body)
             out.append(_inv_bits(bc))
@@ -206,14 +244,32 @@ def impl_inv(op: str) -> str:
     return "ok " + ("|".join(out) if out else "~")
 
 
+def _hx(f):
+    try:
+        return str(f())
+    except IndexError:
+        return "E"
+
+
+def _show_item(t):
+    return "%d:%d:%s" % (t[0], t[1], "-" if t[2] is None else t[2])
+
+
 class _Runner(object):
     """one BlockChain object driven step by step; `out` collects what each step lets the outside see"""
 
     def __init__(self, anchor, hdrs, shared_storage=False):
         self.hdrs = hdrs
         self.cb_seen = []
-        self.bc = BlockChain(anchor) if shared_storage else BlockChain(anchor, unlocked_block_storage={})
-        self._cb = lambda bc, ops: self.cb_seen.append(list(ops))   # kept alive here: callbacks are a WeakSet
+        self.lk_seen = []
+        self.q = _Q()
+        kw = {} if shared_storage else {"unlocked_block_storage": {}}
+        self.bc = BlockChain(anchor, did_lock_to_index_f=lambda items, start: self.lk_seen.append((start, list(items))), **kw)
+
+        def cb(bc, ops):
+            self.cb_seen.append(list(ops))
+            _update_q(self.q, ops)
+        self._cb = cb   # kept alive here: callbacks are a WeakSet
         self.bc.add_change_callback(self._cb)
         self.out = []
         self.dead = False
@@ -224,26 +280,42 @@ class _Runner(object):
         bc, hdrs = self.bc, self.hdrs
         _Script.rank = rank
         del self.cb_seen[:]
+        del self.lk_seen[:]
         try:
             if k == "L" and body > bc.length():
                 # locking beyond the reported chain is outside the property: the history ends, the call is not made
                 self.out.append("outside")
                 self.dead = True
                 return
+            s_lk = "~"
             if k == "A":
                 ops = bc.add_headers([Hdr(h, *hdrs[h]) for h in body])
                 s_ops = _show_ops(ops)
                 s_cb = _dots(_show_ops(o) for o in self.cb_seen) if self.cb_seen else "none"
+            elif k == "P":
+                bc.preload_locked_blocks([Hdr(h, *hdrs[h]) for h in body])
+                s_ops, s_cb = "~", "~"
             else:
                 bc.lock_to_index(body)
                 s_ops, s_cb = "~", "~"
+                if self.lk_seen:
+                    s_lk = "/".join("%d:%s" % (st, _dots(_show_item(t) for t in items)) for st, items in self.lk_seen)
             n = bc.length()
             chain = [bc.hash_for_index(i) for i in range(n)]
             tups = [bc.tuple_for_index(i) for i in range(n)]
-            self.out.append("ops=%s;cb=%s;lk=~;len=%d;locked=%d;chain=%s;last=%d;idx=%s;tup=%s" % (
-                s_ops, s_cb, n, bc.locked_length(), _dots(map(str, chain)), bc.last_block_hash(),
+            neg = [bc.hash_for_index(-i - 1) for i in range(n)]
+            oob = _hx(lambda: bc.hash_for_index(-n - 1)) + "," + _hx(lambda: bc.hash_for_index(n))
+            try:
+                nt = _show_item(bc.tuple_for_index(-1))
+            except IndexError:
+                nt = "E"
+            self.out.append("ops=%s;cb=%s;lk=%s;len=%d;locked=%d;chain=%s;last=%d;idx=%s;tup=%s;neg=%s;oob=%s;nt=%s;ul=%d;known=%s;q=%s" % (
+                s_ops, s_cb, s_lk, n, bc.locked_length(), _dots(map(str, chain)), bc.last_block_hash(),
                 _dots("%d:%s" % (h, "-" if bc.index_for_hash(h) is None else bc.index_for_hash(h)) for h in hdrs),
-                _dots("%d:%d:%s" % (t[0], t[1], "-" if t[2] is None else t[2]) for t in tups)))
+                _dots(_show_item(t) for t in tups),
+                _dots(map(str, neg)), oob, nt, bc.unlocked_length(),
+                "".join("1" if bc.is_hash_known(h) else "0" for h in hdrs) or "~",
+                _show_ops(self.q)))
         except Exception as e:  # noqa: BLE001
             self.out.append("err " + type(e).__name__)
             self.dead = True
@@ -281,7 +353,42 @@ def impl_two(op: str) -> str:
     return "ok " + runners[0].result() + "#" + runners[1].result()
 
 
+def _parse_qops(s):
+    out = []
+    if s != "~":
+        for x in s.split("."):
+            h, idx = x[1:].split("@")
+            out.append(("add" if x[0] == "+" else "remove", None if h == "-1" else Hdr(int(h), 0, 0), int(idx)))
+    return out
+
+
+def _ref_update_q(q, ops):
+    """reference for `_update_q`, written from its comment: leading removes that undo the newest queued entry (same block
+    and index) cancel against it; the rest is queued; popping an empty queue raises"""
+    q, ops = list(q), list(ops)
+    while ops and ops[0][0] == "remove":
+        if not q:
+            return None
+        if q[-1][1:] != ops[0][1:]:
+            break
+        q.pop()
+        ops.pop(0)
+    return q + ops
+
+
+def impl_q(op: str) -> str:
+    a = op.split(" ")
+    q = _Q(_parse_qops(a[1]))
+    try:
+        _update_q(q, _parse_qops(a[2]))
+    except Exception as e:  # noqa: BLE001
+        return "err " + type(e).__name__
+    return "ok " + _show_ops(q)
+
+
 def impl(op: str) -> str:
+    if op.startswith("c15q "):
+        return impl_q(op)
     if op.startswith("c15inv "):
         return impl_inv(op)
     if op.startswith("c15two "):
@@ -329,12 +436,17 @@ def _best_weight(anchor, delivered, hdrs, locked):
 
 
 def oracle(op: str, out: str):
+    if op.startswith("c15q "):
+        a = op.split(" ")
+        want = _ref_update_q(_parse_qops(a[1]), _parse_qops(a[2]))
+        want = "err IndexError" if want is None else "ok " + _show_ops(want)
+        return None if out == want else "_update_q gives %s, the reference %s" % (out, want)
     if op.startswith("c15inv ") and out.startswith("ok"):
         for i, o in enumerate([] if out == "ok ~" else out[3:].split("|")):
             if o.startswith("err") or o == "outside":
                 return None   # judged on the twin `c15` op
-            if o != "111":
-                return "step %d: finder state sound/covering/cache-path = %s (the hypotheses of the C15 theorems fail)" % (i, o)
+            if o != "1111":
+                return "step %d: finder state sound/covering/cache-path/missing-parents = %s (the hypotheses of the C15 theorems fail)" % (i, o)
         return None
     if op.startswith("c15two ") and out.startswith("ok"):
         parts = out[3:].split("#")
@@ -353,7 +465,8 @@ def oracle(op: str, out: str):
     outs = [] if out == "ok ~" else out[3:].split("|")
     delivered = set()
     locked = []           # reference locked prefix
-    replay = []           # ops applied to an initially empty list
+    replay = []           # ops applied to an initially empty list (to the preloaded chain after a preload)
+    npre = 0              # number of preloaded blocks: they never went through a callback
     prev_chain = []
     for i, (k, body, _rank) in enumerate(steps):
         if i >= len(outs):
@@ -361,16 +474,25 @@ def oracle(op: str, out: str):
         o = outs[i]
         if o == "outside":
             return None       # locking beyond the reported chain is outside the property; the history ends
+        if k == "P":
+            # covered as the first call on a fresh object with a chain of distinct headers from the anchor; else correspondence only
+            par, ok = anchor0, i == 0 and len(set(body)) == len(body)
+            for h in body:
+                ok = ok and hdrs[h][0] == par and h != anchor0
+                par = h
+            if not ok:
+                return None
         if o.startswith("err "):
             return "step %d (%s) raised %s" % (i, k, o[4:])
         f = dict(x.split("=", 1) for x in o.split(";"))
         chain = [] if f["chain"] == "~" else [int(x) for x in f["chain"].split(".")]
         if len(chain) != int(f["len"]):
             return "step %d: length() disagrees with hash_for_index" % i
+        want_lk = "~"
         if k == "A":
             delivered.update(body)
             ops = [] if f["ops"] == "~" else f["ops"].split(".")
-            if f["cb"] != f["ops"] and not (f["cb"] == "none" and False):
+            if f["cb"] != f["ops"]:
                 return "step %d: the change callback saw %s, add_headers returned %s" % (i, f["cb"], f["ops"])
             for x in ops:
                 h, idx = (int(y) for y in x[1:].split("@"))
@@ -382,13 +504,27 @@ def oracle(op: str, out: str):
                     if not replay or idx != len(replay) - 1 or replay[-1] != h:
                         return "step %d: op %s does not remove the last element of the replayed list %s" % (i, x, replay)
                     replay.pop()
+        elif k == "P":
+            delivered.update(body)
+            locked = list(body)
+            replay = list(body)
+            npre = len(body)
+            if f["ops"] != "~" or f["cb"] != "~":
+                return "step %d: preload_locked_blocks emitted ops" % i
         else:
             if chain != prev_chain:
                 return "step %d: lock_to_index changed the reported chain from %s to %s" % (i, prev_chain, chain)
             if len(locked) < body <= len(prev_chain):
+                want_lk = "%d:%s" % (len(locked), _dots("%d:%d:%d" % (h, hdrs[h][0], hdrs[h][1]) for h in prev_chain[len(locked):body]))
                 locked = prev_chain[:body]
+            if f["ops"] != "~" or f["cb"] != "~":
+                return "step %d: lock_to_index emitted ops" % i
+        if f["lk"] != want_lk:
+            return "step %d: did_lock_to_index_f was called with %s, expected %s" % (i, f["lk"], want_lk)
         if int(f["locked"]) != len(locked):
             return "step %d: locked_length() is %s, expected %d" % (i, f["locked"], len(locked))
+        if int(f["ul"]) != len(chain) - len(locked):
+            return "step %d: unlocked_length() is %s, length() %d, locked_length() %d" % (i, f["ul"], len(chain), len(locked))
         # the reported chain: starts with the locked prefix, follows parent links from the anchor, delivered headers only
         if chain[:len(locked)] != locked:
             return "step %d: reported chain %s does not start with the locked prefix %s" % (i, chain, locked)
@@ -404,15 +540,26 @@ def oracle(op: str, out: str):
             return "step %d: reported chain %s has weight %d above the anchor %d, a chain of weight %d exists" % (i, chain, got, anchor, best)
         if replay != chain:
             return "step %d: replaying the returned ops gives %s, reported chain is %s" % (i, replay, chain)
+        want = _dots("+%d@%d" % (h, j) for j, h in enumerate(chain) if j >= npre)
+        if f["q"] != want:
+            return "step %d: the queue fed through _update_q holds %s, the reported chain is %s" % (i, f["q"], chain)
         # lookups
         if int(f["last"]) != (chain[-1] if chain else anchor0):
             return "step %d: last_block_hash() is %s" % (i, f["last"])
         want = _dots("%d:%s" % (h, chain.index(h) if h in chain else "-") for h in hdrs)
         if f["idx"] != want:
             return "step %d: index_for_hash gives %s, chain is %s" % (i, f["idx"], chain)
+        want = "".join("1" if h in chain else "0" for h in hdrs) or "~"
+        if f["known"] != want:
+            return "step %d: is_hash_known gives %s, chain is %s" % (i, f["known"], chain)
         want = _dots("%d:%d:%d" % (h, hdrs[h][0], hdrs[h][1]) for h in chain)
         if f["tup"] != want:
             return "step %d: tuple_for_index gives %s, expected %s" % (i, f["tup"], want)
+        if f["neg"] != _dots(str(h) for h in reversed(chain)):
+            return "step %d: hash_for_index(-1..-n) gives %s, chain is %s" % (i, f["neg"], chain)
+        want = "%d:%d:%d" % (chain[-1], hdrs[chain[-1]][0], hdrs[chain[-1]][1]) if chain else "E"
+        if f["nt"] != want:
+            return "step %d: tuple_for_index(-1) gives %s, expected %s" % (i, f["nt"], want)
         prev_chain = chain
     return None
 
@@ -423,6 +570,8 @@ KNOWN: dict = {}
 
 
 def trivial(op: str) -> bool:
+    if op.startswith("c15q "):
+        return op.split(" ")[2] == "~"
     if op.startswith("c15inv "):
         return True   # a second look at a history already counted
     if op.startswith("c15two "):
@@ -436,6 +585,9 @@ def trivial(op: str) -> bool:
 
 
 def neighbours(op, rng):
+    if op.startswith("c15q "):
+        yield op
+        return
     if op.startswith("c15two "):
         yield op
         for w in (0, 1):
@@ -449,13 +601,15 @@ def neighbours(op, rng):
     yield show_op(anchor, not rev, hdrs, steps)
     # every pop order of every step (bounded), every split of one batch
     for i, (k, body, rank) in enumerate(steps):
+        if k == "P":
+            continue
         if k == "A" and 1 < len(set(body)) <= 4:
             for perm in itertools.permutations(sorted(set(body))):
                 yield show_op(anchor, rev, hdrs, steps[:i] + [(k, body, list(perm))] + steps[i + 1:])
             for cut in range(1, len(body)):
                 yield show_op(anchor, rev, hdrs, steps[:i] + [(k, body[:cut], []), (k, body[cut:], [])] + steps[i + 1:])
     for _ in range(40):
-        s2 = [(k, body, rng.sample(sorted(hdrs), len(hdrs))) for k, body, _r in steps]
+        s2 = [(k, body, [] if k == "P" else rng.sample(sorted(hdrs), len(hdrs))) for k, body, _r in steps]
         yield show_op(anchor, rev, hdrs, s2)
     hl = sorted(hdrs)
     for _ in range(40):
@@ -637,12 +791,42 @@ def gen(ctx, emit):
             st = hist[3]
             st.insert(rng.randint(1, len(st)), ("A", [rng.choice(labels)], []))
         E(with_lock(rng, hist))
+    # a fresh object whose locked prefix is preloaded (preload_locked_blocks), then a history that may deliver the
+    # preloaded headers again, their siblings, and lock further
+    for _ in range(ctx.n(2500, 20000)):
+        anchor, rev, hdrs, steps = random_history(rng, rng.choice([4, 6, 12]))
+        tips = []
+        for h in hdrs:
+            path, x = [], h
+            while x in hdrs and x not in path:
+                path.append(x)
+                x = hdrs[x][0]
+            if x == anchor:
+                tips.append(path[::-1])
+        if not tips:
+            continue
+        pre = rng.choice(tips)
+        pre = pre[:rng.randint(1, len(pre))]
+        E((anchor, rev, hdrs, [("P", pre, [])] + steps))
     # random histories of up to 30 headers with forks, orphans, duplicates and locks
     for _ in range(ctx.n(3000, 40000)):
         E(random_history(rng, 30))
     if ctx.thorough:
         for _ in range(ctx.n(0, 3000)):
             E(random_history(rng, 60))
+    # `_update_q` on its own: queues and op lists of every shape, also those no history produces (a remove that does not
+    # undo the newest entry: the popped entry is put back; a remove on an empty queue: q.pop() raises)
+    def rand_ops(n, removes_first):
+        ops = []
+        for j in range(n):
+            kind = "-" if (removes_first and j < n // 2) or (not removes_first and rng.random() < 0.5) else "+"
+            ops.append("%s%d@%d" % (kind, rng.choice([-1, 1, 2, 3]), rng.randint(0, 3)))
+        return ".".join(ops) or "~"
+    for qs in ("~", "+1@0", "+1@0.+2@1", "-1@0"):
+        for os_ in ("~", "-1@0", "-2@1", "-2@1.-1@0", "-2@1.-1@0.+3@0", "-2@0", "-1@1", "+3@2", "+3@2.-3@2", "--1@0", "-2@1.-2@0.+1@1"):
+            emit("c15q %s %s" % (qs, os_.replace("--1", "--1")), "update-q")
+    for _ in range(ctx.n(1500, 20000)):
+        emit("c15q %s %s" % (rand_ops(rng.randint(0, 4), False), rand_ops(rng.randint(0, 5), rng.random() < 0.7)), "update-q")
     # two BlockChain objects in one process, fed interleaved, overlapping hashes with different ancestry
     for _ in range(ctx.n(4000, 60000)):
         ha, hb = rng.choice(pool), rng.choice(pool)
